@@ -2,7 +2,7 @@
   C08, second module — counting cuckoo counts across export+load (joining C08, C05, C15); statements in
   full in `Lemmas/CorollariesCcf.lean`.
 -/
-import PyProb.Lemmas.Corollaries
+import PyProb.Lemmas.CorollariesCcf
 
 namespace PyProb.C08
 open PyProb
